@@ -375,6 +375,9 @@ impl OutstationSession {
         loop {
             if let Err(err) = self.run_idle_state(io, reader, writer, database).await {
                 self.state.reset();
+                // an interrupted response is not confirmed: nothing it carried may be released, and
+                // the remainder of its selection does not belong to the next session
+                database.reset();
                 return err;
             }
         }
